@@ -45,14 +45,176 @@ def frac_ok(impl, num, den):
     return impl[0] == 'ok' and close(impl[1], Fraction(num, den))
 
 
+# ---------------------------------------------------------------- containers
+# The value of pc is a function of the sequence of elements only, whatever holds them: a list, an array, or a pandas Series
+# with ANY index (the index is bookkeeping of the table the column came from, never part of the sample).
+CONTAINERS = ('list', 'ndarray', 'series', 'series_perm', 'series_shift', 'series_label', 'series_dup')
+
+
+def wrap(rng, vals, how):
+    vals = list(vals)
+    n = len(vals)
+    if how == 'list':
+        return vals
+    if how == 'tuple':
+        return tuple(vals)
+    if how == 'ndarray':
+        return np.array(vals)
+    if how == 'series':
+        return pd.Series(vals)
+    if how == 'series_perm':                        # e.g. a column of a frame that was sorted before
+        idx = list(range(n))
+        rng.shuffle(idx)
+        return pd.Series(vals, index=idx)
+    if how == 'series_shift':                       # e.g. a column of a filtered frame / a later chunk
+        k = rng.randint(1, 50)
+        return pd.Series(vals, index=range(k, k + n))
+    if how == 'series_label':
+        idx = ['r%d' % i for i in range(n)]
+        rng.shuffle(idx)
+        return pd.Series(vals, index=idx)
+    if how == 'series_dup':                         # concatenated frames keep their (repeated) labels
+        return pd.Series(vals, index=[i % max(1, n // 2) for i in range(n)])
+    raise ValueError(how)
+
+
+# ---------------------------------------------------------------- tables
+COLS = ['TRAV', 'CDR3A', 'TRBV', 'CDR3B']
+CELLPOOL = [['AB', 'A', 'B', 'ABC', 'BC', 'C', ''], ['C', 'BC', 'CB', 'B', 'x'], [1, 2, 12, 3], [0.5, 1.5]]
+
+
+def gen_rows(rng, ncol, nrow, seed_rows=()):
+    """Rows that agree in all columns, in all but one column, or not at all (with earlier rows / the rows of another table)."""
+    rows = []
+    for _ in range(nrow):
+        c = rng.random()
+        src = rows + list(seed_rows)
+        if src and c < 0.3:
+            rows.append(tuple(rng.choice(src)))                      # agrees in all columns
+        elif src and c < 0.5 and ncol > 1:
+            r = list(rng.choice(src))
+            j = rng.randrange(ncol)
+            r[j] = rng.choice([x for x in CELLPOOL[j % 4] if x != r[j]] or [r[j]])
+            rows.append(tuple(r))                                    # all but one column
+        else:
+            rows.append(tuple(rng.choice(CELLPOOL[j % 4]) for j in range(ncol)))
+    return rows
+
+
+def blank(rng, rows):
+    """Missing cells (string columns only: a missing cell in a numeric column changes the dtype of the whole column)."""
+    return [tuple((None if (rng.random() < 0.2 and isinstance(x, str)) else x) for x in r) for r in rows]
+
+
+def frame(rows, cols, objcols=True, index=None):
+    df = pd.DataFrame(rows, columns=cols, index=index)
+    if objcols:
+        # string columns must stay strings: cells of one column share a type in a real table
+        for j, c in enumerate(cols):
+            if j < 2:
+                df[c] = df[c].astype(object)
+    return df
+
+
+def row_keys(df, on=None):
+    """One hashable key per row: the tuple of cell texts of the selected columns (missing cell = one distinct empty value)."""
+    sub = df if on is None else df[list(on)]
+    return [tuple('' if (x is None or x is pd.NA or (isinstance(x, float) and math.isnan(x))) else str(x) for x in r)
+            for r in sub.itertuples(index=False)]
+
+
+def tok2(k1, k2):
+    t = tokens(list(k1) + list(k2))
+    return [t[:len(k1)], t[len(k1):]]
+
+
+def ordered_subset(rng, cols):
+    k = rng.randint(1, len(cols))
+    on = rng.sample(list(cols), k)
+    return on
+
+
+def show_rows(rows):
+    return [list(map(repr, r)) for r in rows]
+
+
+# ---------------------------------------------------------------- numeric relabellings
+I64_MIN, I64_MAX, U64_MAX = -2 ** 63, 2 ** 63 - 1, 2 ** 64 - 1
+AFF_A = [1, -1, 3, -7, 2 ** 40, -(2 ** 40), 2 ** 56]
+AFF_B = [0, -1, -20, 1000, 2 ** 40, -(2 ** 40), 2 ** 62, -(2 ** 62), 2 ** 63]
+INT_POOL = [-(2 ** 63), -(2 ** 62) - 1, -(2 ** 62), -(2 ** 40), -1000, -129, -128, -2, -1, 0, 1, 2, 127, 128, 255, 256, 1000,
+            2 ** 40, 2 ** 40 + 1, 2 ** 62, 2 ** 62 + 1, 2 ** 63 - 1]
+UINT_POOL = [0, 1, 255, 256, 2 ** 40, 2 ** 62, 2 ** 63 - 1, 2 ** 63, 2 ** 63 + 1, 2 ** 64 - 1]
+FLOAT_POOL = [float('-inf'), -1e300, -2.5 * 2 ** 40, -2.5, -0.5, 0.0, 5e-324, 1e-300, 0.5, 1.0, 2.0 ** 40 + 0.5, 1e300, float('inf')]
+INT_DTYPES = [('int8', -128, 127), ('int16', -2 ** 15, 2 ** 15 - 1), ('int32', -2 ** 31, 2 ** 31 - 1), ('int64', I64_MIN, I64_MAX),
+              ('uint8', 0, 255), ('uint16', 0, 2 ** 16 - 1), ('uint32', 0, 2 ** 32 - 1), ('uint64', 0, U64_MAX)]
+
+
+def relabelling(rng, K):
+    """An injective map on {0..K}: (description, function).  Integer results are either small (|x| <= 10**4) or huge
+    (>= 2**40 in magnitude) - nothing in between, so that an implementation that allocates by magnitude fails fast."""
+    while True:
+        c = rng.random()
+        if c < 0.45:
+            a, b = rng.choice(AFF_A), rng.choice(AFF_B)
+            lo, hi = min(b, a * K + b), max(b, a * K + b)
+            if lo < I64_MIN or hi > U64_MAX or (lo < 0 and hi > I64_MAX):
+                continue
+            return 'v -> %d*v + %d' % (a, b), (lambda v, a=a, b=b: a * v + b)
+        if c < 0.7:
+            pool = UINT_POOL if rng.random() < 0.3 else INT_POOL
+            if K + 1 > len(pool):
+                continue
+            img = rng.sample(pool, K + 1)
+            return 'v -> %s[v]' % img, (lambda v, img=img: img[v])
+        if c < 0.85:
+            a, b = rng.choice([0.25, -0.125, 2.0 ** 40, -3.0]), rng.choice([0.0, -3.5, 0.5, 2.0 ** 20])
+            return 'v -> %r*v + %r' % (a, b), (lambda v, a=a, b=b: a * v + b)      # exact in binary floating point for v <= K
+        if K + 1 > len(FLOAT_POOL):
+            continue
+        img = rng.sample(FLOAT_POOL, K + 1)
+        return 'v -> %s[v]' % img, (lambda v, img=img: img[v])
+
+
+def numeric_holders(rng, vals):
+    """The same numbers in every container / dtype that represents each of them exactly: (description, constructor)."""
+    out = [('list', list), ('ndarray', np.array), ('Series[permuted index]', lambda x: wrap(rng, x, 'series_perm')),
+           ('ndarray[object]', lambda x: np.array(x, dtype=object))]
+    if all(isinstance(v, int) for v in vals):
+        lo, hi = min(vals), max(vals)
+        for name, dlo, dhi in INT_DTYPES:
+            if dlo <= lo and hi <= dhi:
+                out.append(('ndarray[%s]' % name, lambda x, name=name: np.array(x, dtype=name)))
+                out.append(('Series[%s]' % name, lambda x, name=name: pd.Series(np.array(x, dtype=name))))
+        m = max(abs(lo), abs(hi))
+        if m <= 2 ** 24:
+            out.append(('ndarray[float32]', lambda x: np.array(x, dtype='float32')))
+        if m <= 2 ** 53:
+            out.append(('ndarray[float64]', lambda x: np.array(x, dtype='float64')))
+        if m <= 2 ** 11:
+            out.append(('ndarray[float16]', lambda x: np.array(x, dtype='float16')))
+    else:
+        if all(float(np.float32(v)) == v for v in vals):
+            out.append(('ndarray[float32]', lambda x: np.array(x, dtype='float32')))
+        out.append(('Series[float64]', lambda x: pd.Series(np.array(x, dtype='float64'))))
+    return out
+
+
 def run(ctx):
     import pyrepseq.stats as st
     rng = ctx.rng
     ctx.rule = ('(a) every multiplicity pattern (integer partition) of N <= Nmax realised as string / int / float / mixed samples in '
-                'random order: pc, pc_n(multiplicities); (b) all pairs of patterns with N1, N2 <= 5 over a shared value pool: pc(a, b); '
-                '(c) tables of 1-4 columns x 2-8 rows with string / int / float / missing cells, rows agreeing in all, all-but-one column, '
-                'or only after concatenation without separator: pc(table), pc_joint(table, columns), legacy (alpha, beta) tuple; (d) random '
-                'samples up to N = 2000. non-trivial := at least two values repeat and pc is strictly between 0 and 1')
+                'random order, held in a list / ndarray / Series with default, permuted, shifted, labelled or repeated index: pc, '
+                'pc_n(multiplicities); (b) all pairs of patterns with N1, N2 <= 5 over a shared value pool, each sample in its own container: '
+                'pc(a, b); (c) tables of 1-4 columns x 2-8 rows with string / int / float / missing cells, rows agreeing in all, all-but-one '
+                'column, or only after concatenation without separator: pc(table), pc_joint(table, any ordered subset of the columns), legacy '
+                '(alpha, beta) tuple; (c2) the same for PAIRS of tables sharing rows: pc(t1, t2), pc_joint(t1, on, t2) (second table with '
+                'its own index / column order), pc_grouped_cross; (d) random samples up to N = 2000; (e) legacy (alpha, beta) tuples whose '
+                'members are held in independent containers, one- and two-sample form; (f) numeric samples under injective relabellings '
+                '(affine with negative / 2**40 / 2**62 coefficients, arbitrary value tables incl. int64 / uint64 extremes, +-inf, denormals) '
+                'in every dtype that holds the values exactly (int8..int64, uint8..uint64, float16/32/64, object), one- and two-sample '
+                'form: same value as the unrelabelled sample. non-trivial := at least two values repeat and pc is strictly between 0 and 1 '
+                '(two-sample forms: strictly between 0 and 1)')
     Nmax = 8 if ctx.quick else 12
     cases = []
     for N in range(2, Nmax + 1):
@@ -74,7 +236,10 @@ def run(ctx):
                  nontrivial_key=('pc1', tuple(map(str, s))) if nt else None)
         arg = s
         mixed = len({type(x) for x in s}) > 1      # a plain mixed list is coerced to strings by numpy (injective on this pool)
+        how = rng.choice(CONTAINERS[1:]) if not mixed else 'ndarray'
+        ctx.count('one_sample_container_' + how)
         for name, impl in (('pc', call_impl(st.pc, arg)), ('pc[Series]', call_impl(st.pc, arg if mixed else pd.Series(arg))),
+                           ('pc[%s]' % how, call_impl(st.pc, wrap(rng, arg, how))),
                            ('pc_n', call_impl(st.pc_n, np.array(mults))), ('pc_n[list]', call_impl(st.pc_n, list(mults)))):
             if not frac_ok(impl, num, den):
                 ctx.violation('property', '%s(%s) = %s, but %d of the %d ordered pairs of distinct positions coincide' %
@@ -99,62 +264,56 @@ def run(ctx):
         two.append((a, b))
     reqs = []
     for a, b in two:
-        t = tokens(a + b)
-        reqs.append(('api_pc2', [t[:len(a)], t[len(a):]]))
+        reqs.append(('api_pc2', tok2(a, b)))
     outs = ctx.oracle.run_parallel(reqs)
     for (a, b), (num, den) in zip(two, outs):
         nt = 0 < num < den
         ctx.case(sample=dict(func='pc(a,b)', a=a, b=b, expected='%d/%d' % (num, den)) if nt and len(ctx.samples) < 5 else None,
                  nontrivial_key=('pc2', tuple(a), tuple(b)) if nt else None)
-        impl = call_impl(st.pc, a, b)
-        impl_sym = call_impl(st.pc, b, a)
-        if not frac_ok(impl, num, den) or not frac_ok(impl_sym, num, den):
-            ctx.violation('property', 'pc(%s, %s) = %s / swapped %s, but %d of the %d cross pairs coincide' % (a, b, impl, impl_sym, num, den),
-                          dict(func='pc2', a=a, b=b, expected='%d/%d' % (num, den)), site='stats.pc[two]')
+        ha, hb = rng.choice(CONTAINERS), rng.choice(CONTAINERS)
+        for name, impl, impl_sym in (('list, list', call_impl(st.pc, a, b), call_impl(st.pc, b, a)),
+                                     ('%s, %s' % (ha, hb), call_impl(st.pc, wrap(rng, a, ha), wrap(rng, b, hb)),
+                                      call_impl(st.pc, wrap(rng, b, hb), wrap(rng, a, ha)))):
+            if not frac_ok(impl, num, den) or not frac_ok(impl_sym, num, den):
+                ctx.violation('property', 'pc(%s, %s) [held in %s] = %s / swapped %s, but %d of the %d cross pairs coincide' %
+                              (a, b, name, impl, impl_sym, num, den),
+                              dict(func='pc2', a=a, b=b, containers=name, expected='%d/%d' % (num, den)), site='stats.pc[two]')
+    if len(ctx.violations) > 8:
+        return
     # (c) tables
     for t in range(60 if ctx.quick else 3000):
         ncol, nrow = rng.randint(1, 4), rng.randint(2, 8)
-        cols = ['TRAV', 'CDR3A', 'TRBV', 'CDR3B'][:ncol]
+        cols = COLS[:ncol]
         with_missing = rng.random() < 0.4
-        cellpool = [['AB', 'A', 'B', 'ABC', 'BC', 'C', ''], ['C', 'BC', 'CB', 'B', 'x'], [1, 2, 12, 3], [0.5, 1.5]]
-        rows = []
-        for _ in range(nrow):
-            c = rng.random()
-            if rows and c < 0.3:
-                rows.append(tuple(rng.choice(rows)))                     # agrees in all columns
-            elif rows and c < 0.5 and ncol > 1:
-                r = list(rng.choice(rows))
-                j = rng.randrange(ncol)
-                r[j] = rng.choice([x for x in cellpool[j % 4] if x != r[j]] or [r[j]])
-                rows.append(tuple(r))                                    # all but one column
-            else:
-                rows.append(tuple(rng.choice(cellpool[j % 4]) for j in range(ncol)))
+        rows = gen_rows(rng, ncol, nrow)
         if ncol >= 2:
             rows += [('AB', 'C') + rows[0][2:], ('A', 'BC') + rows[0][2:]]   # equal only after concatenation without separator
         if with_missing:
-            rows = [tuple((None if (rng.random() < 0.2 and isinstance(x, str)) else x) for x in r) for r in rows]
-        # string columns must stay strings: cells of one column share a type in a real table
-        df = pd.DataFrame(rows, columns=cols)
-        for j, c in enumerate(cols):
-            if j < 2:
-                df[c] = df[c].astype(object)
-        keyrows = [tuple('' if (x is None or (isinstance(x, float) and math.isnan(x))) else str(x) for x in r) for r in df.itertuples(index=False)]
-        num, den = ctx.oracle.run([('api_pc1', [tokens(keyrows)])])[0]
+            rows = blank(rng, rows)
+        objcols = t % 3 != 2                     # else: the string dtype pandas infers by itself
+        df = frame(rows, cols, objcols)
+        keyrows = row_keys(df)
+        on = ordered_subset(rng, cols)           # pc_joint on any selection of the columns, in any order
+        keyon = row_keys(df, on)
+        (num, den), (non, don) = ctx.oracle.run([('api_pc1', [tokens(keyrows)]), ('api_pc1', [tokens(keyon)])])
         nt = 0 < num < den
         ctx.count('table_with_missing' if with_missing else 'table_no_missing')
         ctx.case(sample=dict(func='pc(table)', rows=[list(map(str, r)) for r in rows[:5]], expected='%d/%d' % (num, den)) if nt and len(ctx.samples) < 6 else None,
                  nontrivial_key=('table', tuple(keyrows)) if nt else None)
         before = df.copy()
-        for name, impl in (('pc[table]', call_impl(st.pc, df)), ('pc_joint', call_impl(st.pc_joint, df, list(cols)))):
-            if not frac_ok(impl, num, den):
-                ctx.violation('property', '%s on rows %s = %s, but %d/%d row pairs agree in every column' % (name, rows, impl, num, den),
-                              dict(func=name, rows=[list(map(repr, r)) for r in rows], columns=cols, expected='%d/%d' % (num, den)),
+        for name, impl, (n_, d_), sel in (('pc[table]', call_impl(st.pc, df), (num, den), cols),
+                                          ('pc_joint', call_impl(st.pc_joint, df, list(cols)), (num, den), cols),
+                                          ('pc_joint', call_impl(st.pc_joint, df, list(on)), (non, don), on),
+                                          ('pc[table]', call_impl(st.pc, df[list(on)]), (non, don), on)):
+            if not frac_ok(impl, n_, d_):
+                ctx.violation('property', '%s on rows %s (columns %s, selected %s) = %s, but %d/%d row pairs agree in every selected column' %
+                              (name, rows, cols, list(sel), impl, n_, d_),
+                              dict(func=name, rows=show_rows(rows), columns=cols, on=list(sel), expected='%d/%d' % (n_, d_)),
                               site='stats.%s[%s]' % (name.split('[')[0], 'missing' if with_missing else 'plain'))
         if not df.equals(before):
-            ctx.violation('property', 'pc / pc_joint modified the caller\'s table', dict(rows=[list(map(repr, r)) for r in rows]), site='stats.pc[mutation]')
+            ctx.violation('property', 'pc / pc_joint modified the caller\'s table', dict(rows=show_rows(rows)), site='stats.pc[mutation]')
         if ncol == 2 and not with_missing and t % 4 == 0:
             a, b = [r[0] for r in rows], [r[1] for r in rows]
-            dfab = pd.DataFrame(dict(CDR3A=a, CDR3B=b))
             impl = call_impl(st.pc, (list(map(str, a)), list(map(str, b))))
             k2 = [(str(x), str(y)) for x, y in zip(a, b)]
             n2, d2 = ctx.oracle.run([('api_pc1', [tokens(k2)])])[0]
@@ -162,8 +321,189 @@ def run(ctx):
                 ctx.violation('property', 'pc((alpha, beta) tuple) = %s, expected %d/%d' % (impl, n2, d2), dict(a=a, b=b), site='stats.pc[tuple]')
         if len(ctx.violations) > 8:
             return
+    # (c2) pairs of tables: pc(t1, t2), pc_joint(t1, on, t2)
+    for t in range(60 if ctx.quick else 2000):
+        ncol, n1, n2 = rng.randint(1, 4), rng.randint(1, 7), rng.randint(1, 7)
+        cols = COLS[:ncol]
+        with_missing = rng.random() < 0.4
+        rows1 = gen_rows(rng, ncol, n1)
+        rows2 = gen_rows(rng, ncol, n2, seed_rows=rows1)
+        if ncol >= 2:
+            rows1.append(('AB', 'C') + rows1[0][2:])                     # equal only after concatenation without separator
+            rows2.append(('A', 'BC') + rows1[0][2:])
+        if with_missing:
+            rows1, rows2 = blank(rng, rows1), blank(rng, rows2)
+        objcols = t % 3 != 2
+        df1 = frame(rows1, cols, objcols)
+        k = rng.randint(0, 30)
+        df2 = frame(rows2, cols, objcols, index=range(k, k + len(rows2)))   # the second table has its own index
+        on = ordered_subset(rng, cols)
+        # wider tables of which pc_joint sees only the selected columns; the second one with another column order
+        w1 = df1.assign(other=range(len(df1)))
+        w2 = df2.assign(other=range(len(df2)))[['other'] + cols[::-1]]
+        k1, k2, o1, o2 = row_keys(df1), row_keys(df2), row_keys(df1, on), row_keys(df2, on)
+        full, sel, own = ctx.oracle.run([('api_pc2', tok2(k1, k2)), ('api_pc2', tok2(o1, o2)), ('api_pc2', tok2(o1, o1))])
+        nt = 0 < sel[0] < sel[1]
+        ctx.count('table_pair_%dcol_%s' % (len(on), 'missing' if with_missing else 'plain'))
+        ctx.case(sample=dict(func='pc_joint(t1, on, t2)', rows1=show_rows(rows1[:4]), rows2=show_rows(rows2[:4]), on=on,
+                             expected='%d/%d' % sel) if nt and t % 20 == 0 else None,
+                 nontrivial_key=('table2', tuple(o1), tuple(o2)) if nt else None)
+        b1, b2 = w1.copy(), w2.copy()
+        checks = [('pc(t1, t2)', call_impl(st.pc, df1, df2), full, cols), ('pc(t2, t1)', call_impl(st.pc, df2, df1), full, cols),
+                  ('pc_joint(t1, columns, t2)', call_impl(st.pc_joint, w1, list(cols), w2), full, cols),
+                  ('pc_joint(t1, on, t2)', call_impl(st.pc_joint, w1, list(on), w2), sel, on),
+                  ('pc_joint(t2, on, t1)', call_impl(st.pc_joint, w2, list(on), w1), sel, on),
+                  ('pc(t1[on], t2[on])', call_impl(st.pc, w1[list(on)], w2[list(on)]), sel, on),
+                  ('pc_joint(t1, on, t1)', call_impl(st.pc_joint, w1, list(on), w1), own, on)]
+        for name, impl, (n_, d_), sel_ in checks:
+            if not frac_ok(impl, n_, d_):
+                ctx.violation('property', '%s with t1 rows %s, t2 rows %s (columns %s, selected %s) = %s, but %d of the %d cross pairs of rows '
+                              'agree in every selected column' % (name, rows1, rows2, cols, list(sel_), impl, n_, d_),
+                              dict(func=name, rows1=show_rows(rows1), rows2=show_rows(rows2), columns=cols, on=list(sel_),
+                                   expected='%d/%d' % (n_, d_)),
+                              site='stats.%s[two,%s]' % ('pc_joint' if name.startswith('pc_joint') else 'pc', 'missing' if with_missing else 'plain'))
+        if not (w1.equals(b1) and w2.equals(b2)):
+            ctx.violation('property', 'pc / pc_joint (two tables) modified the caller\'s tables', dict(rows1=show_rows(rows1), rows2=show_rows(rows2)),
+                          site='stats.pc[mutation]')
+        # pc_grouped_cross applies the two-sample form to every pair of groups of one table
+        if t % 3 == 0:
+            rows = rows1 + rows2
+            grp = ['g%d' % rng.randrange(3) for _ in rows]
+            grp[0], grp[-1] = 'g0', 'g1'
+            dfg = frame(rows, cols, objcols).assign(grp=grp)
+            onl = list(on) if (with_missing or len(on) > 1 or rng.random() < 0.5) else on[0]     # a plain label selects the raw column
+            names = sorted(set(grp))
+            parts = {g: row_keys(dfg[dfg['grp'] == g], on) for g in names}
+            gp = list(itertools.combinations(names, 2))
+            exp = ctx.oracle.run([('api_pc2', tok2(parts[g], parts[h])) for g, h in gp])
+            impl = call_impl(st.pc_grouped_cross, dfg, 'grp', onl)
+            bad = None
+            if impl[0] != 'ok' or list(impl[1].index) != names or list(impl[1].columns) != names:
+                bad = 'result %s' % (impl,)
+            else:
+                for (g, h), (n_, d_) in zip(gp, exp):
+                    for x in (impl[1].loc[g, h], impl[1].loc[h, g]):
+                        if not close(float(x), Fraction(n_, d_)):
+                            bad = 'entry (%s, %s) = %r, but %d of the %d cross pairs of rows coincide' % (g, h, x, n_, d_)
+            ctx.case(nontrivial_key=('grouped', tuple(grp), tuple(row_keys(dfg, on))) if any(0 < n_ < d_ for n_, d_ in exp) else None)
+            if bad:
+                ctx.violation('correspondence', 'pc_grouped_cross(rows %s grouped %s, on=%r): %s' % (rows, grp, onl, bad),
+                              dict(func='pc_grouped_cross', rows=show_rows(rows), groups=grp, columns=cols, on=onl), site='stats.pc_grouped_cross')
+        if len(ctx.violations) > 8:
+            return
+    # (e) legacy (alpha, beta) tuple: the chains are paired BY POSITION, whatever holds them
+    alphas, betas = ['CAV', 'CAL', 'CAVS', 'CA'], ['CASS', 'CAST', 'SCASS', 'VCASS', 'CASR']    # CAV+SCASS = CAVS+CASS: no separator trap
+    members = CONTAINERS + ('tuple',)
+    tup = []
+    for t in range(80 if ctx.quick else 2000):
+        pool = [(rng.choice(alphas), rng.choice(betas)) for _ in range(rng.randint(1, 4))]
+        r1 = [rng.choice(pool) for _ in range(rng.randint(2, 9))]
+        r2 = [rng.choice(pool + [(rng.choice(alphas), rng.choice(betas))]) for _ in range(rng.randint(1, 7))]
+        if t % 2:
+            hs = [rng.choice(CONTAINERS[2:]) for _ in range(4)]       # all four chains Series with independent indexes
+        else:
+            hs = [rng.choice(members) for _ in range(4)]
+        tup.append((r1, r2, hs))
+    outs = ctx.oracle.run_parallel([('api_pc1', [tokens(r1)]) for r1, _, _ in tup] + [('api_pc2', tok2(r1, r2)) for r1, r2, _ in tup])
+    for n, (r1, r2, hs) in enumerate(tup):
+        one, cross = outs[n], outs[len(tup) + n]
+        a1, b1 = [r[0] for r in r1], [r[1] for r in r1]
+        a2, b2 = [r[0] for r in r2], [r[1] for r in r2]
+        nt = 0 < one[0] < one[1] or 0 < cross[0] < cross[1]
+        for h in hs:
+            ctx.count('tuple_member_' + h)
+        ctx.case(sample=dict(func='pc((alpha, beta))', alpha=a1, beta=b1, containers=hs[:2], expected='%d/%d' % one) if nt and n % 25 == 0 else None,
+                 nontrivial_key=('tuple', tuple(r1), tuple(r2)) if nt else None)
+        t1 = (wrap(rng, a1, hs[0]), wrap(rng, b1, hs[1]))
+        t2 = (wrap(rng, a2, hs[2]), wrap(rng, b2, hs[3]))
+        d2 = pd.DataFrame(dict(CDR3A=a2, CDR3B=b2))
+        for name, impl, (n_, d_) in (('pc((alpha, beta))', call_impl(st.pc, t1), one),
+                                     ('pc((alpha, beta), (alpha2, beta2))', call_impl(st.pc, t1, t2), cross),
+                                     ('pc((alpha2, beta2), (alpha, beta))', call_impl(st.pc, t2, t1), cross),
+                                     ('pc((alpha, beta), table2)', call_impl(st.pc, t1, d2), cross)):
+            if not frac_ok(impl, n_, d_):
+                ctx.violation('property', '%s with (alpha, beta) rows %s held in (%s, %s), second sample rows %s held in (%s, %s) = %s, but %d of the %d '
+                              'pairs of positions hold equal (alpha, beta) rows' % (name, r1, hs[0], hs[1], r2, hs[2], hs[3], impl, n_, d_),
+                              dict(func=name, alpha=a1, beta=b1, alpha2=a2, beta2=b2, containers=hs,
+                                   index=[list(map(str, x.index)) if isinstance(x, pd.Series) else None for x in t1 + t2],
+                                   expected='%d/%d' % (n_, d_)), site='stats.pc[tuple]')
+        if len(ctx.violations) > 8:
+            return
+    # (f) numbers: any injective relabelling, any exact dtype (C02_relabel_invariant)
+    base = []
+    for N in range(2, 7):
+        for pat in partitions(N):
+            vals = [i for i, c in enumerate(pat) for _ in range(c)]
+            rng.shuffle(vals)
+            other = [rng.randint(0, len(pat)) for _ in range(rng.randint(1, 6))]
+            base.append((vals, other, len(pat)))
+    for _ in range(40 if ctx.quick else 1500):
+        K = rng.randint(1, 12)
+        base.append(([rng.randint(0, K) for _ in range(rng.randint(2, 60))], [rng.randint(0, K) for _ in range(rng.randint(1, 40))], K))
+    outs = ctx.oracle.run_parallel([('api_pc1', [tokens(a)]) for a, _, _ in base] + [('api_pc2', tok2(a, b)) for a, b, _ in base])
+    for n, (a, b, K) in enumerate(base):
+        one, cross = outs[n], outs[len(base) + n]
+        for rep in range(3 if ctx.quick else 5):
+            desc, f = relabelling(rng, K)
+            fa, fb = [f(v) for v in a], [f(v) for v in b]
+            assert len(set(fa + fb)) == len(set(a + b)), desc        # injective on the sample
+            holders = numeric_holders(rng, fa + fb)
+            chosen = rng.sample(holders, min(3, len(holders)))
+            if rep == 0:
+                chosen = holders[:2] + chosen[:1]
+            nt = 0 < one[0] < one[1] and 0 < cross[0] < cross[1]
+            ctx.case(sample=dict(func='pc', relabelling=desc, sample=[repr(x) for x in fa[:10]], held_in=chosen[0][0], expected='%d/%d' % one)
+                     if nt and n % 30 == 0 and rep == 0 else None,
+                     nontrivial_key=('num', desc, tuple(a), tuple(b)) if nt else None)
+            for hname, mk in chosen:
+                A, B = mk(fa), mk(fb)
+                if np.asarray(A).tolist() != fa or np.asarray(B).tolist() != fb:
+                    # the container does not hold the numbers: numpy turns a list of Python ints on both sides of 2**63 into float64
+                    ctx.count('numeric_skipped_container_not_exact')
+                    continue
+                ctx.count('numeric_' + hname)
+                checks = [('pc(sample)', call_impl(st.pc, A), one)]
+                if np.asarray(A).dtype == np.asarray(B).dtype:
+                    checks += [('pc(sample, sample2)', call_impl(st.pc, A, B), cross), ('pc(sample2, sample)', call_impl(st.pc, B, A), cross)]
+                else:
+                    # a container that infers its dtype per sample (uint64 next to int64): numpy compares such a pair in float64
+                    ctx.count('numeric_pair_skipped_mixed_dtype')
+                for name, impl, (n_, d_) in checks:
+                    if not frac_ok(impl, n_, d_):
+                        ctx.violation('property', '%s = %s for sample %s%s held in %s, but %d of the %d pairs hold equal numbers (the sample is the '
+                                      'injective relabelling %s of %s%s, on which the value is %d/%d: C02_relabel_invariant)' %
+                                      (name, impl, fa[:30], '' if name == 'pc(sample)' else ', sample2 %s' % fb[:30], hname, n_, d_, desc, a[:30],
+                                       '' if name == 'pc(sample)' else ' / %s' % b[:30], n_, d_),
+                                      dict(func=name, sample=[repr(x) for x in fa], sample2=[repr(x) for x in fb], held_in=hname, relabelling=desc,
+                                           base=a, base2=b, expected='%d/%d' % (n_, d_)), site='stats.pc[numeric]')
+            if len(ctx.violations) > 8:
+                return
+    # (g) numbers that NumPy's default coercion cannot hold exactly (Python ints on both sides of 2**63, ints above 2**53 mixed with
+    #     floats, a uint64 sample against an int64 sample): np.asarray / np.intersect1d fall back to float64 and merge DISTINCT numbers.
+    #     These are samples of numbers, i.e. inside the statement; the deviation is a recorded finding (known_findings.json, DESIGN 5
+    #     D18), reported under its own site so that any other violation of C02 is still reported.
+    big = [([2 ** 63 - 1, 2 ** 63], None), ([0, 5, 2 ** 63, 2 ** 63 + 1], None), ([0.5, 2 ** 53, 2 ** 53 + 1], None),
+           (np.array([2 ** 62, 2 ** 62 + 1], dtype=np.uint64), np.array([2 ** 62 + 1, 5], dtype=np.int64))]
+    for a, b in big:
+        la, lb = [x for x in (a.tolist() if hasattr(a, 'tolist') else a)], (None if b is None else b.tolist())
+        if lb is None:
+            num = sum(1 for i in range(len(la)) for j in range(len(la)) if i != j and la[i] == la[j])
+            den = len(la) * (len(la) - 1)
+            g = call_impl(st.pc, a)
+        else:
+            num = sum(1 for x in la for y in lb if x == y)
+            den = len(la) * len(lb)
+            g = call_impl(st.pc, a, b)
+        ctx.case(nontrivial_key=('beyond-float64', str(la), str(lb)))
+        ctx.count('numbers_beyond_float64_exactness')
+        if not frac_ok(g, num, den):
+            ctx.violation('property', 'pc(%s%s) = %s, but %d of the %d pairs hold equal numbers (distinct integers merged by the float64 fallback of '
+                          'np.asarray / np.intersect1d)' % (la, '' if lb is None else ', %s' % lb, g, num, den),
+                          dict(func='pc', a=[str(x) for x in la], b=None if lb is None else [str(x) for x in lb], expected='%d/%d' % (num, den)),
+                          site='stats.pc[numbers beyond float64 exactness]')
     ctx.assumptions += ['str() of a cell is injective on the generated cell domain; cells contain neither "." nor "_" (stated domain)',
-                        'numpy.unique / intersect1d group equal values (exercised, incl. object arrays of mixed type)']
+                        'numpy.unique / intersect1d group equal values (exercised, incl. object arrays of mixed type, every integer / float dtype '
+                        'that holds the sample exactly; both samples of the two-sample form share one dtype)']
 
 
 def replay(ctx, obj):
